@@ -108,3 +108,5 @@ def replay(ctx, payload):
     return {"fails": bool(msgs), "oracle": msgs, "real": real}
 
 LEVEL_NOTE = LEVEL_NOTE + " NEW: `deep_map_rearranges` (Properties/C02Deep.lean): maps that cut DEEP inside contigs (> 3·err bases of the shared contig on both sides of every cut, any number of cuts per contig, both strands, untagged class) are remapped to the explicit spec with cuts = incidences − shared contigs, and `deep_cut_position` gives the exact cut coordinate (last sentence of C02); the guards the margin rests on (`trim_large_overhangs` tests, `improves` with the −3·err guard, the `make_fixes` tests) are TRANSLATED from the current source and proved equal to the model's (Properties/C02Source.lean, T1b)"
+
+LEVEL_NOTE = LEVEL_NOTE + " NEWER: `Properties/C02Core.lean` — the 3·err margin for ALL maps with pairwise disjoint Pretext fragments (`PtxDisjoint`, what every PretextView map satisfies): `ops_keep_core` (K1, per result, any guarded operation sequence), `remap_keeps_core` (K2, every resolver round), `remap_core_in_one_scaffold` (K3: the core's rows are one contiguous run of one output scaffold in the assembly routeKey prescribes, reversed and strand-negated iff the piece is minus), `deep_cut_exact_any_map` (K4: a cut deeper than 3·err inside a contig splits it exactly at the Pretext coordinate, any map) with kernel-checked counter-examples for the dropped side conditions; `Properties/C02Script.lean` + `Model/Pretext.lean` — the PretextView edit-script model as a Lean object (`Script`, `wfScript`, `ptxOf`; tiling `script_pieces_tile`, piece length, `null_script_unedited`, `aligned_script_is_Aligned`, `deep_script_is_DeepCut`, `script_leftovers_are_suffix`), tied to the Python generator by the `script-model` stream (driver kind `script`). Still open: 'remapping completes without error' for every script (the QC never failing) is decided by correspondence + oracle only"
